@@ -141,6 +141,35 @@ pub fn show_search(spec: &SearchSpec, o: &SearchOut) -> String {
     s
 }
 
+/// a key whose `Display` is not injective (it prints the tag only) and whose `Hash` is coarse: two different keys
+/// may print alike and hash alike. Serialised as the pair (id, tag).
+#[derive(Clone, Debug, PartialEq, Eq, PartialOrd, Ord)]
+pub struct LKey {
+    pub id: usize,
+    pub tag: u8,
+}
+impl std::hash::Hash for LKey {
+    fn hash<H: std::hash::Hasher>(&self, h: &mut H) {
+        (self.id % 2).hash(h)
+    }
+}
+impl std::fmt::Display for LKey {
+    fn fmt(&self, f: &mut std::fmt::Formatter) -> std::fmt::Result {
+        write!(f, "tag{}", self.tag)
+    }
+}
+impl serde::Serialize for LKey {
+    fn serialize<S: serde::Serializer>(&self, s: S) -> Result<S::Ok, S::Error> {
+        (self.id, self.tag).serialize(s)
+    }
+}
+impl<'de> serde::Deserialize<'de> for LKey {
+    fn deserialize<D: serde::Deserializer<'de>>(d: D) -> Result<Self, D::Error> {
+        let (id, tag) = <(usize, u8)>::deserialize(d)?;
+        Ok(LKey { id, tag })
+    }
+}
+
 macro_rules! no_cfg {
     ($bb:ident, $steps:expr) => {{
         let _: &[&str] = $steps;
@@ -473,6 +502,9 @@ macro_rules! kind_reversed {
             }
             true
         }
+        pub fn lkey_list(n: &Node<LKey, i64, u32>) -> Vec<(usize, u32)> {
+            n.iter_out().map(|Edge(_, v, e)| (v.key().id, e)).collect()
+        }
         pub fn own_list_str(n: &Node<String, i64, u32>) -> (Vec<(String, u32)>, Vec<(String, u32)>) {
             (n.iter_out().map(|Edge(_, v, e)| (v.key().clone(), e)).collect(), n.iter_in().map(|Edge(u, _, e)| (u.key().clone(), e)).collect())
         }
@@ -521,6 +553,9 @@ macro_rules! kind_reversed {
             }
             let _ = it.size_hint();
             true
+        }
+        pub fn lkey_list(n: &Node<LKey, i64, u32>) -> Vec<(usize, u32)> {
+            n.iter().map(|Edge(_, v, e)| (v.key().id, e)).collect()
         }
         pub fn own_list_str(n: &Node<String, i64, u32>) -> (Vec<(String, u32)>, Vec<(String, u32)>) {
             (n.iter().map(|Edge(_, v, e)| (v.key().clone(), e)).collect(), vec![])
@@ -1274,6 +1309,57 @@ macro_rules! ext_mod {
                                         }
                                     }
                                 }
+                            }
+                            "g.rtlossy" => {
+                                // g.rtlossy <slot> <seed>: a small closed graph over keys whose Display text and hash collide, serialised
+                                // and read back in both formats; judged by the statement of C12 alone (the model has no such key type)
+                                type GL = Graph<LKey, i64, u32>;
+                                let mut x = t[2].parse::<u64>().unwrap_or(1).wrapping_mul(6364136223846793005).wrapping_add(1442695040888963407);
+                                let mut next = |m: u64| -> u64 {
+                                    x = x.wrapping_mul(6364136223846793005).wrapping_add(1442695040888963407);
+                                    (x >> 33) % m
+                                };
+                                let n = 2 + next(4) as usize;
+                                let mut g = GL::new();
+                                let nodes: Vec<Node<LKey, i64, u32>> = (0..n).map(|i| Node::new(LKey { id: i, tag: (i % 2) as u8 }, i as i64 - 1)).collect();
+                                for nd in &nodes {
+                                    g.insert(nd.clone());
+                                }
+                                for _ in 0..next(7) {
+                                    let (u, v, e) = (next(n as u64) as usize, next(n as u64) as usize, next(5) as u32);
+                                    nodes[u].connect(&nodes[v], e);
+                                }
+                                let shape = |g: &GL| -> Vec<(usize, i64, Vec<(usize, u32)>)> {
+                                    let mut v: Vec<(usize, i64, Vec<(usize, u32)>)> = g.iter().map(|(k, nd)| {
+                                        let mut l: Vec<(usize, u32)> = lkey_list(nd);
+                                        if !DIRECTED {
+                                            l.sort();
+                                        }
+                                        (k.id, *nd.value(), l)
+                                    }).collect();
+                                    v.sort();
+                                    v
+                                };
+                                let want = shape(&g);
+                                if !ctx.quiet && ctx.oracles.iter().any(|o| o == "c12") {
+                                    for fmt in ["json", "cbor"] {
+                                        let back: Result<GL, String> = if fmt == "json" {
+                                            serde_json::to_vec(&g).map_err(|e| e.to_string()).and_then(|b| serde_json::from_slice::<GL>(&b).map_err(|e| e.to_string()))
+                                        } else {
+                                            serde_cbor::to_vec(&g).map_err(|e| e.to_string()).and_then(|b| serde_cbor::from_slice::<GL>(&b).map_err(|e| e.to_string()))
+                                        };
+                                        match back {
+                                            Err(m) => ctx.fail(case, li, "c12", format!("{fmt} round trip of a graph over keys whose Display text collides failed: {m}")),
+                                            Ok(g2) => {
+                                                let got = shape(&g2);
+                                                if got != want {
+                                                    ctx.fail(case, li, "c12", format!("{fmt} round trip of a graph over keys whose Display text collides: (id, value, own edges) were {:?} and are {:?}", want, got));
+                                                }
+                                            }
+                                        }
+                                    }
+                                }
+                                "robust".into()
                             }
                             "g.destr" => {
                                 // g.destr <slot> <json|cbor> <hex bytes>: the same container with text keys (`Graph<String, i64, u32>`).
